@@ -1871,3 +1871,65 @@ def rule_P10(ctx, cls, reader, obj, rid='P10'):
                'interface, but read() re-derives it as `%s` instead of restoring it: a written '
                'and read-back bound can behave differently' % (a, unparse(st.value)[:50]))
     return n
+
+
+# ---------------------------------------------------------------------------
+# P11 the class chosen by a reader is the class the writer's tag names
+# ---------------------------------------------------------------------------
+
+def rule_P11(ctx, rid='P11'):
+    ctx.rule(rid, 'type tag <-> class: where a reader chooses the class of a member by '
+             'comparing a stored tag with a string, the branch taken on equality binds the class '
+             'of that very name (the writer stores `__class__.__name__`), and the other branch a '
+             'different class')
+    prog = ctx.program
+    n = 0
+    for c, w, r, u, obj in persist_classes(prog):
+        gv = _group_vars(r)
+        for st in walk_no_nested(r.node):
+            if not isinstance(st, ast.If):
+                continue
+            t = st.test
+            if not (isinstance(t, ast.Compare) and len(t.ops) == 1 and
+                    isinstance(t.ops[0], (ast.Eq, ast.NotEq)) and
+                    isinstance(t.comparators[0], ast.Constant) and
+                    isinstance(t.comparators[0].value, str) and
+                    isinstance(t.left, ast.Subscript) and _is_attrs(t.left.value)):
+                continue
+            tag = t.comparators[0].value
+            if tag not in prog.classes:
+                continue
+            key, _ = key_template(t.left.slice)
+
+            def bound_class(stmts):
+                for x in stmts:
+                    if isinstance(x, ast.Assign) and len(x.targets) == 1 and \
+                            isinstance(x.targets[0], ast.Name) and \
+                            isinstance(x.value, ast.Name) and x.value.id in prog.classes:
+                        return x.value.id, x
+                return None, None
+            eq_branch, ne_branch = (st.body, st.orelse) if isinstance(t.ops[0], ast.Eq) else \
+                (st.orelse, st.body)
+            ce, xe = bound_class(eq_branch)
+            cn, xn = bound_class(ne_branch)
+            if ce is None and cn is None:
+                continue
+            ok = ce == tag and (cn is None or cn != tag)
+            n += 1
+            ctx.ob(rid, '%s.read:tag(%s=%s)' % (c.name, key, tag), ok, r.where(st),
+                   'tag %r selects class %s%s' % (tag, ce, ', anything else %s' % cn if cn else '')
+                   if ok else
+                   'a stored tag %r makes the reader build a %s (and any other tag a %s): the '
+                   'member comes back as the wrong class' % (tag, ce, cn))
+            # the writer stores the class name of the member under that key
+            W = writer_table(w)
+            ws = [e for e in W if e.key == key and e.kind == 'attr']
+            okw = any(e.src is not None and '__class__.__name__' in unparse(e.src) or
+                      (e.src is not None and 'type(' in unparse(e.src) and
+                       '__name__' in unparse(e.src)) for e in ws)
+            n += 1
+            ctx.ob(rid, '%s.write:tag(%s)' % (c.name, key), okw, w.where(),
+                   'the writer stores the class name of the member under %r' % key if okw else
+                   'the writer does not store `__class__.__name__` of the member under %r, which '
+                   'the reader compares with class names' % key)
+    return n
